@@ -2,6 +2,7 @@
 # tools/tri.sh <PROP> <K> <checks...>   (wave dir from $WAVE, default /tmp/seed3)
 P=$1; K=$2; shift; shift
 W=${WAVE:-/tmp/seed3}
-out=$(/verif/tools/seedtry.sh $W/$P/patch$K.diff $W/$P/demo$K.py "$@" 2>&1 | grep -v Warn)
+D=$W/$P; [ -d $D/deliver ] && D=$D/deliver
+out=$(/verif/tools/seedtry.sh $D/patch$K.diff $D/demo$K.py "$@" 2>&1 | grep -v Warn)
 echo "== $P-$K
 $out"
